@@ -1,18 +1,29 @@
 /-
-  C01 (grammar part) — the token-level parser accepts exactly the grammar.
+  C01 (grammar part) — the token-level parser accepts exactly the grammar.  ALL statements are for every flag
+  combination (`no_location`, `allow_type_system`, `experimental_fragment_variables`); fuel does not appear.
 
   `Matches fl items toks`: the executable matcher of `Spec/Grammar.lean` consumes the WHOLE token list
-  (`SOF … EOF`) along the concrete-syntax view, every `loc` being the span of the node's own tokens.
-  `Item.SpansAll` is the declarative form of the same relation (derivation with spans).
-  Soundness : `parse fl toks = ok t  →  WF fl t ∧ SpansAll fl [SOF, view t, EOF] toks`
-  Completeness (exact): `WF fl t ∧ Matches fl [SOF, view t, EOF] toks → parse fl toks = ok t`
-  for every flag combination; fuel does not appear (the entry points use `toks.length + 1`,
-  `check_width` shows it is always enough).
+  (`SOF … EOF`) along the concrete-syntax view, every `loc` being the span of the node's own tokens;
+  `Item.SpansAll` is its declarative form (`matches_spans`).
+
+  documents  `parse_sound_document`    parse fl toks = ok d → WF fl d ∧ Matches fl [view d] toks
+             `parse_complete_document` WF fl d ∧ Matches fl [view d] toks → parse fl toks = ok d          (exact)
+             `parseDocument_accepts_iff`, `matched_document_unique`
+             `parse_complete_up_to_positions`  WF ∧ position-free match of t.erase → parse = ok t', t'.erase = t.erase
+             `parse_sound_executable` / `parse_complete_executable` / `parseDocument_accepts_iff_executable`
+             `parseDocument_sound_of` / `parseDocument_complete_of` (reductions to the type-system layer)
+  values     `parseValue_sound`, `parseValue_complete`, `parseValue_accepts_iff`
+  types      `parseType_sound`, `parseType_complete`, `parseType_accepts_iff`
+  text       `parse_text_accepts_iff_partial`, `parse_text_result_partial` (lexAll ∘ parser; lexical side = LANG-1)
+  tables     `operationTypeTuple_spec`, … (re-extracted from parser.py on every run)
 -/
 import PyGqlModel.Lemmas.ParseValue
 import PyGqlModel.Lemmas.ParseDocL
 import PyGqlModel.Lemmas.ParseTSE
 import PyGqlModel.Lemmas.ParseTSC
+import PyGqlModel.Lemmas.ParseTSC6
+import PyGqlModel.Lemmas.ParseErase3
+import PyGqlModel.ParseText
 namespace PyGql.Props.C01
 open PyGql PyGql.Ast PyGql.Parse PyGql.Spec
 
@@ -148,24 +159,6 @@ def ParseCompleteDocument : Prop :=
   ∀ (fl : Flags) (toks : List Tok) (d : Document), wfDocument fl d = true → Matches fl [documentV d] toks →
     parseDocument fl toks = .ok d
 
-/-- `parse_sound` for values and types (kept from phase 1).  SUPERSEDED for documents by `parse_sound_document`
-    (below), which proves `ParseSoundDocument` in full; nothing is missing on the soundness side any more. -/
-theorem parse_sound_partial (fl : Flags) (toks : List Tok) :
-    (∀ v, parseValue fl toks = .ok v → wfValue false v = true ∧ Matches fl [p .sof, valueV v, p .eof] toks) ∧
-    (∀ t, parseType fl toks = .ok t → wfType t = true ∧ Matches fl [p .sof, typeV t, p .eof] toks) :=
-  ⟨parseValue_sound fl toks, parseType_sound fl toks⟩
-
-/-- `parse_complete` for values and types (every flag combination).  For documents: proved in full for the executable
-    language (`parse_complete_executable`, `allow_type_system=False`) and reduced to the type-system layer in
-    general (`parseDocument_complete_of`: given `TSComplete`, i.e. exact completeness of `parse_type_system_definition`
-    / `parse_type_system_extension` under the follow condition `FollowDef`).  MISSING for `ParseCompleteDocument`:
-    `TSComplete` itself (the completeness direction of the 8 type-system definitions and 7 extensions; their
-    soundness direction is proved: `tsSound`). -/
-theorem parse_complete_partial (fl : Flags) (toks : List Tok) :
-    (∀ v, wfValue false v = true → Matches fl [p .sof, valueV v, p .eof] toks → parseValue fl toks = .ok v) ∧
-    (∀ t, wfType t = true → Matches fl [p .sof, typeV t, p .eof] toks → parseType fl toks = .ok t) :=
-  ⟨parseValue_complete fl toks, parseType_complete fl toks⟩
-
 /-! ## documents: reduction to the type-system layer, and the executable language in full -/
 
 /-- soundness of `parse`, given soundness of the two type-system dispatchers when they are reachable -/
@@ -214,6 +207,103 @@ theorem parseDocument_accepts_iff_executable (fl : Flags) (hx : fl.allowTypeSyst
     returned document. -/
 theorem parse_sound_document : ParseSoundDocument :=
   fun fl toks d h => parseDocument_sound_of fl (fun fuel _ => tsSound fl fuel) toks d h
+
+/-- `parse_complete` IN FULL (exact): documents with executable and type-system definitions and extensions, all 8 flag
+    combinations.  Every well-formed document whose view matches the tokens (spans included) is what `parse` returns. -/
+theorem parse_complete_document : ParseCompleteDocument :=
+  fun fl toks d w h => parseDocument_complete_of fl (fun fuel _ => tsComplete fl fuel) toks d w h
+
+/-- THE FIRST SENTENCE OF C01 at token level: `parse` succeeds exactly when the token list derives from the grammar
+    (is matched by the view of some well-formed document) — for every flag combination. -/
+theorem parseDocument_accepts_iff (fl : Flags) (toks : List Tok) :
+    (∃ d, parseDocument fl toks = .ok d) ↔ ∃ d, wfDocument fl d = true ∧ Matches fl [documentV d] toks :=
+  ⟨fun ⟨d, h⟩ => ⟨d, parse_sound_document fl toks d h⟩,
+   fun ⟨d, w, h⟩ => ⟨d, parse_complete_document fl toks d w h⟩⟩
+
+/-- the parser is a function of the tokens, so the matched well-formed document is unique -/
+theorem matched_document_unique (fl : Flags) (toks : List Tok) (d d' : Document)
+    (w : wfDocument fl d = true) (h : Matches fl [documentV d] toks)
+    (w' : wfDocument fl d' = true) (h' : Matches fl [documentV d'] toks) : d = d' := by
+  have a := parse_complete_document fl toks d w h
+  have b := parse_complete_document fl toks d' w' h'
+  rw [a] at b; cases b; rfl
+
+/-! ## completeness up to positions -/
+
+theorem wfDefinition_E (fl : Flags) (x : Definition) : wfDefinition (E fl) x = wfDefinition fl x := by
+  cases x <;> simp [wfDefinition, wfFragment, E]
+
+theorem wfDocument_E (fl : Flags) (d : Document) : wfDocument (E fl) d = wfDocument fl d := by
+  simp [wfDocument, wfDefinition_E, E_ts]
+
+/-- COMPLETENESS UP TO POSITIONS: let `t` be any tree (its `loc`s are irrelevant: only `t.erase` occurs) that is
+    well-formed and whose position-free view derives the token list (`Matches` under `no_location`: token classes
+    agree, optional separators free, look-ahead restrictions respected).  Then `parse` accepts the tokens — under
+    the given flags, positions on or off — and returns `t` up to positions. -/
+theorem parse_complete_up_to_positions (fl : Flags) (toks : List Tok) (t : Document)
+    (w : wfDocument fl t.erase = true) (h : Matches (E fl) [documentV t.erase] toks) :
+    ∃ t', parseDocument fl toks = .ok t' ∧ t'.erase = t.erase := by
+  have c := parse_complete_document (E fl) toks t.erase (by rw [wfDocument_E]; exact w) h
+  have e : parseDocument (E fl) toks = (parseDocument fl toks).map Document.erase :=
+    runAll_E _ _ _ (parseDocumentP_E fl) toks
+  rw [e] at c
+  cases hp : parseDocument fl toks with
+  | error err => rw [hp] at c; cases c
+  | ok t' =>
+    rw [hp] at c
+    refine ⟨t', rfl, ?_⟩
+    simpa [Except.map] using c
+
+/-! ## text level: lexer ∘ parser -/
+
+/-- `parse(text)` succeeds exactly when the lexer produces a token list that derives from the grammar.
+    `_partial`: this composes the two models; it says nothing yet about WHICH texts `lexAll` tokenises how — that is
+    LANG-1's `lex_sound` / `lex_render` (ignored characters insignificant, lexical grammar), not yet in /verif.  With
+    them, "text accepted ⇔ text derives from the June-2018 grammar" follows by substituting for `lexAll s = .ok toks`. -/
+theorem parse_text_accepts_iff_partial (fl : Flags) (s : Text) :
+    (∃ d, parseText fl s = some d) ↔
+      ∃ toks d, Lex.lexAll s = .ok toks ∧ wfDocument fl d = true ∧ Matches fl [documentV d] toks := by
+  unfold parseText
+  cases hl : Lex.lexAll s with
+  | error e =>
+    constructor
+    · rintro ⟨d, h⟩; cases h
+    · rintro ⟨toks, d, h, _⟩; cases h
+  | ok toks =>
+    dsimp only
+    constructor
+    · rintro ⟨d, h⟩
+      cases hp : parseDocument fl toks with
+      | error e => rw [hp] at h; cases h
+      | ok d' => exact ⟨toks, d', rfl, parse_sound_document fl toks d' hp⟩
+    · rintro ⟨toks', d, e, w, h⟩
+      cases e
+      exact ⟨d, by rw [parse_complete_document fl toks d w h]; rfl⟩
+
+/-- and the tree returned for an accepted text is the (unique) well-formed document matched by its tokens -/
+theorem parse_text_result_partial (fl : Flags) (s : Text) (d : Document) :
+    parseText fl s = some d ↔
+      ∃ toks, Lex.lexAll s = .ok toks ∧ wfDocument fl d = true ∧ Matches fl [documentV d] toks := by
+  unfold parseText
+  cases hl : Lex.lexAll s with
+  | error e =>
+    constructor
+    · intro h; cases h
+    · rintro ⟨toks, h, _⟩; cases h
+  | ok toks =>
+    dsimp only
+    constructor
+    · intro h
+      cases hp : parseDocument fl toks with
+      | error e => rw [hp] at h; cases h
+      | ok d' =>
+        rw [hp] at h
+        have : d' = d := by simpa [Except.toOption] using h
+        subst this
+        exact ⟨toks, rfl, parse_sound_document fl toks d' hp⟩
+    · rintro ⟨toks', e, w, h⟩
+      cases e
+      rw [parse_complete_document fl toks d w h]; rfl
 
 /-! ## the tables re-extracted from `parser.py` are the grammar's
 
